@@ -33,6 +33,7 @@ type Contract struct {
 	Requires []*Clause
 	Ensures  []*Clause
 	Always   []*Clause // two-state invariants (entry state vs now) that must hold after every call made by the function
+	Decrs    []*Clause // loop N decreases EXPR
 	Steps    []*Clause // guarantee of every single call made by the function (state before that call vs after it)
 	Invs     []*Clause
 	Lets     []letDef
@@ -292,8 +293,16 @@ func (sp *Specs) parseContractFile(path string, pkgPath string) error {
 			case "loop":
 				// loop N invariant EXPR
 				lf := strings.Fields(body)
+				if len(lf) >= 3 && lf[1] == "decreases" {
+					// loop N decreases EXPR (termination measure)
+					fmt.Sscanf(lf[0], "%d", &cl.Loop)
+					cl.Kind = "decreases"
+					cl.Expr = strings.TrimSpace(strings.SplitN(body, "decreases", 2)[1])
+					cur.Decrs = append(cur.Decrs, cl)
+					break
+				}
 				if len(lf) < 3 || lf[1] != "invariant" {
-					return fmt.Errorf("%s:%d: expected `loop N invariant EXPR`", path, ln.n)
+					return fmt.Errorf("%s:%d: expected `loop N invariant EXPR` or `loop N decreases EXPR`", path, ln.n)
 				}
 				fmt.Sscanf(lf[0], "%d", &cl.Loop)
 				cl.Kind = "invariant"
